@@ -16,6 +16,10 @@ REPO = os.environ.get('RBP_REPO', '/repo')
 BUILD = os.path.join(VERIF, '.build')
 # one cargo target directory per source tree: two trees sharing one would leave whichever binary was linked last
 TARGET = os.path.join(BUILD, 'hooks' if REPO == '/repo' else 'hooks-' + __import__('hashlib').md5(REPO.encode()).hexdigest()[:8])
+COVERAGE = os.environ.get('RBP_VERIF_COVERAGE') == '1'        # tools/coverage.py: source-coverage build (nightly, -C instrument-coverage)
+if COVERAGE:
+    TARGET = os.path.join(BUILD, 'cov')
+    os.environ.setdefault('LLVM_PROFILE_FILE', os.path.join(BUILD, 'cov', 'prof', 'rbp-%8m.profraw'))
 BIN = os.path.join(TARGET, 'debug', 'rusty-blockparser')
 WORKROOT = os.path.join(VERIF, '.work')
 SPEC = os.path.join(VERIF, 'spec')
@@ -43,8 +47,10 @@ def build():
     os.makedirs(BUILD, exist_ok=True)
     with open(os.path.join(BUILD, 'lock'), 'w') as lk:
         fcntl.flock(lk, fcntl.LOCK_EX)
-        env = dict(os.environ, CARGO_TARGET_DIR=TARGET, RUSTFLAGS='--cfg rbp_verif', CARGO_NET_OFFLINE='true')
-        r = subprocess.run(['cargo', 'build', '--offline', '--quiet'], cwd=REPO, env=env,
+        env = dict(os.environ, CARGO_TARGET_DIR=TARGET, RUSTFLAGS='--cfg rbp_verif' + (' -C instrument-coverage' if COVERAGE else ''),
+                   CARGO_NET_OFFLINE='true')
+        env.pop('LLVM_PROFILE_FILE', None)
+        r = subprocess.run(['cargo'] + (['+nightly'] if COVERAGE else []) + ['build', '--offline', '--quiet'], cwd=REPO, env=env,
                            stdout=subprocess.PIPE, stderr=subprocess.STDOUT, text=True, timeout=900)
         if r.returncode != 0:
             raise ToolError('cargo build failed:\n' + r.stdout[-4000:])
